@@ -144,3 +144,15 @@ register('C07', 'translation_validation',
          "nodes): the solver decides the function per history, not the history quantifier; update_template is exercised "
          "under C14/C15",
          "SMT translation validation after override histories (symx + z3)", "7/C07")
+register('C14', 'translation_validation',
+         "Each listed read-only / copy-making operation (run, get_run_func, get_jacobian_func with in_place=False, "
+         "get_nodes, get_edges, get_edge, collect_edges with and without delay_info, get_node_template, __getitem__, "
+         "to_yaml, deepcopy + edit of the copy, update_template + edit of the derived template, deriving an operator from "
+         "a shared OperatorTemplate) and, in the thorough tier, every ordered pair of them is performed on flat and "
+         "hierarchical in-memory templates with shared node/operator objects and per-node overrides; afterwards the SAME "
+         "template is compiled with in_place=False and z3 proves every state variable's derivative equal to the reference "
+         "semantics of the original spec (fingerprints check declared initial values and parameter values). run() twice "
+         "is covered by the pair (run, run).",
+         "reals for floats; operation sequences are bounded enumeration (singles / all ordered pairs); the solver decides "
+         "function identity per sequence; 5 template shapes",
+         "SMT translation validation of the template after non-mutating operations (symx + z3)", "7/C14")
